@@ -41,6 +41,11 @@ Qed.
 Lemma gen_loader_stateless : loader_stateless_okb gen_loader_state = true /\ loader_reach_okb gen_loader_reach = true.
 Proof. split; vm_compute; reflexivity. Qed.
 
+(* what the code that runs per match stores beyond the call (regenerated from filters.go, utils.go and the methods of
+   filterParams) is the audited list: no table, counter or slot that carries an answer from one match to the next *)
+Lemma gen_run_state_ok : run_state_okb gen_run_state = true.
+Proof. vm_compute. reflexivity. Qed.
+
 (* the eight comparison closures and the helpers they share are, statement for statement, the audited ones from which
    eval's comparison cases are transcribed *)
 Lemma gen_cmp_closures_ok : cmp_closures_okb gen_cmp_closures = true.
